@@ -73,7 +73,7 @@ def render(op):
 def alphabet(names):
     A = []
     for f in names:
-        A += [('OPEN', f, m) for m in MODES] + [('CLOSE', f), ('READFILE', f), ('EOF', f), ('WRITEFILE', f, 'w1'), ('SEEK', f, 1), ('SEEK', f, 2), ('PUTRECORD', f, 'r1'), ('GETRECORD', f)]
+        A += [('OPEN', f, m) for m in MODES] + [('CLOSE', f), ('READFILE', f), ('EOF', f), ('WRITEFILE', f, 'w1'), ('WRITEFILE', f, ''), ('WRITEFILE', f, ' '), ('SEEK', f, 1), ('SEEK', f, 2), ('PUTRECORD', f, 'r1'), ('GETRECORD', f)]
     return A
 
 def history_case(ops, initial, tag, tail):
